@@ -315,7 +315,6 @@ def ob_debounce(n: int, deb: int, maxw: int, t0: int, t1: int, t2: int, k0: int,
     pre: 1 <= n <= 3 and 1 <= deb <= 2 and 1 <= maxw <= 3
     pre: 0 <= t0 <= t1 <= t2 <= TQ and (n > 1 or t1 == t0) and (n > 2 or t2 == t1)
     pre: 0 <= k0 <= KQ and 0 <= k1 <= KQ and 0 <= k2 <= KQ and (n > 1 or k1 == 0) and (n > 2 or k2 == 0)
-    pre: not (rev and late_item_overtakes(deb, maxw, n, t0, t1, t2, k0, k1, k2))
     post: _
     """
     return _debounce_scenario(deb, maxw, n, [t0, t1, t2], [k0, k1, k2], 1 if rev else 0)
